@@ -83,14 +83,17 @@ func (a Bool) M__eq__(other Object) (Object, error) {
 	if b, ok := convertToBool(other); ok {
 		return NewBool(a == b), nil
 	}
-	return False, nil
+	switch other.(type) {
+	case Int, Float:
+		// a number which isn't 0 or 1
+		return False, nil
+	}
+	// let the other operand (eg a big int) decide
+	return NotImplemented, nil
 }
 
 func (a Bool) M__ne__(other Object) (Object, error) {
-	if b, ok := convertToBool(other); ok {
-		return NewBool(a != b), nil
-	}
-	return True, nil
+	return notEq(a.M__eq__(other))
 }
 
 func notEq(eq Object, err error) (Object, error) {
